@@ -17,6 +17,8 @@ HANDWRITTEN_DEPTH = 3      # hand-written permutations for every content reachab
 
 
 def lang_spec(name):
+    if name in ('CLSsamepair', 'CLSnoassoc'):
+        return families.cls_langs()[name[3:]]
     if name == 'CLSopp':
         return families.cls_langs()['opposite']
     return {'OPS': families.ops_lang, 'OPS2': families.ops2_lang, 'FR': families.fr_lang}[name]()
@@ -53,6 +55,17 @@ def extra_plain_models():
     out.append(('CLSopp', PlainModel([('s', 'Ss'), ('h', 'Hh')],
                                      [('Uses_Ss_Hh', 'clients', ['s'], 'server', ['h']),
                                       ('Uses_Hh_Ss', 'users', ['h'], 'used', ['s'])])))
+    # the same association name between the same two types in the same direction: only the fields differ
+    out.append(('CLSsamepair', PlainModel([('h1', 'Host'), ('h2', 'Host'), ('d1', 'Disk'), ('d2', 'Ssd'), ('d3', 'Disk')],
+                                          [('Storage_Host_Disk', 'primaryHost', ['h1'], 'primary', ['d1']),
+                                           ('Storage_Host_Disk_backupHost_backups', 'backupHost', ['h1'], 'backups', ['d2', 'd3']),
+                                           ('Storage_Host_Disk_backupHost_backups', 'backupHost', ['h2'], 'backups', ['d1']),
+                                           ('Storage_Disk_Disk', 'mirrorOf', ['d1'], 'mirrors', ['d2']),
+                                           ('Storage_Disk_Disk_before_after', 'before', ['d2'], 'after', ['d3'])])))
+    out.append(('CLSsamepair', PlainModel([('d1', 'Disk'), ('h1', 'Host')],
+                                          [('Storage_Host_Disk_backupHost_backups', 'backupHost', ['h1'], 'backups', ['d1']),
+                                           ('Storage_Disk_Disk_before_after', 'before', ['d1'], 'after', ['d1'])])))
+    out.append(('CLSnoassoc', PlainModel([('a1', 'Aa'), ('b1', 'Bb'), ('a2', 'Aa')], [])))
     out.append(('OPS2', PlainModel([('c1', 'Crate'), ('c2', 'Crate'), ('i1', 'Item'), ('i2', 'Item')],
                                    [('Part', 'whole', ['c1'], 'parts', ['c2', 'i1']), ('Contain', 'container', ['c2'], 'inside', ['i1', 'i2']),
                                     ('Pair', 'crateA', ['c1', 'c2'], 'itemsB', ['i1', 'i2'])])))
